@@ -637,36 +637,55 @@ def rule_r17(text, rules):
 
 def rule_r22(text, rules):
     """RECV.iter().map(|X| E).collect()  ->  { let mut __cK = Vec::new(); for X in RECV.iter() { __cK.push(E); } __cK }
-    (Verus has no specification for the Map adapter / collect.)  RECV is a path of identifiers and field accesses, X one identifier;
-    refused if E contains `return` or `?` (they would leave the closure, not the function).  The result is a Vec: any other
-    collect target is rejected by the type checker of the generated text.  The for-loop counts as a loop of the function."""
+       RECV.iter().map(PATH).collect()   ->  { let mut __cK = Vec::new(); for __mK in RECV.iter() { __cK.push(PATH(__mK)); } __cK }
+    (also with the turbofish `collect::<Vec<_>>()`; Verus has no specification for the Map adapter / collect.)  RECV is a path of
+    identifiers and field accesses, X one identifier, PATH a path of identifiers; refused if E contains `return` or `?` (they would leave
+    the closure, not the function).  The result is a Vec: any other collect target is rejected by the type checker of the generated
+    text.  The for-loop counts as a loop of the function."""
     k = 0
     while True:
         toks, st = _sig_with_index(text)
         hit = None
-        for i in range(len(st) - 12):
-            tx = [y.text for y in st[i:i + 8]]
-            if tx[:7] != [".", "iter", "(", ")", ".", "map", "("] or tx[7] != "|": continue
-            if not (st[i + 8].kind == "ident" and st[i + 9].text == "|"): continue
+        for i in range(len(st) - 10):
+            tx = [y.text for y in st[i:i + 7]]
+            if tx != [".", "iter", "(", ")", ".", "map", "("]: continue
             mo = i + 6; mc = match_close(st, mo)
-            if [y.text for y in st[mc + 1:mc + 5]] != [".", "collect", "(", ")"]: continue
+            # collect() or collect::<Vec<_>>()
+            after = "".join(y.text for y in st[mc + 1:mc + 12])
+            n_after = None
+            for want in (".collect()", ".collect::<Vec<_>>()"):
+                acc = ""; n = 0
+                while n < 12 and mc + 1 + n < len(st) and len(acc) < len(want):
+                    acc += st[mc + 1 + n].text; n += 1
+                if acc == want: n_after = n; break
+            if n_after is None: continue
             # receiver: identifiers / self joined by `.`
             r = i - 1
             if not (st[r].kind == "ident"): continue
             while r - 2 >= 0 and st[r - 1].text == "." and st[r - 2].kind == "ident": r -= 2
             if r - 1 >= 0 and st[r - 1].text in (".", "::", ")", "]", "?"): continue    # part of a longer postfix expression: leave it
-            body = st[i + 10:mc]
-            if any((y.kind == "ident" and y.text == "return") or (y.kind == "punct" and y.text == "?") for y in body):
-                raise ExtractError("unsupported: `return` / `?` inside a map(..).collect() closure")
-            hit = (r, i, mc); break
+            inner = st[mo + 1:mc]
+            if len(inner) >= 3 and inner[0].text == "|" and inner[1].kind == "ident" and inner[2].text == "|":
+                body = inner[3:]
+                if any((y.kind == "ident" and y.text == "return") or (y.kind == "punct" and y.text == "?") for y in body):
+                    raise ExtractError("unsupported: `return` / `?` inside a map(..).collect() closure")
+                var = inner[1].text
+                E = text[inner[3].start:inner[-1].end]
+            elif inner and all((y.kind == "ident") or (y.kind == "punct" and y.text == "::") for y in inner):
+                var = None
+                E = text[inner[0].start:inner[-1].end]
+            else:
+                continue
+            hit = (r, i, mc, n_after, var, E); break
         if hit is None: return text
-        r, i, mc = hit
+        r, i, mc, n_after, var, E = hit
         k += 1
         recv = text[st[r].start:st[i - 1].end]
-        var = st[i + 8].text
-        E = text[st[i + 10].start:st[mc - 1].end]
+        if var is None:
+            var = "__m%d" % k
+            E = "%s(%s)" % (E, var)
         new = "{ let mut __c%d = Vec::new(); for %s in %s.iter() { __c%d.push(%s); } __c%d }" % (k, var, recv, k, E, k)
-        text = text[:st[r].start] + new + text[st[mc + 4].end:]
+        text = text[:st[r].start] + new + text[st[mc + n_after].end:]
         rules.append("R22")
 
 def rule_r24(text, rules):
